@@ -234,6 +234,21 @@ def _gen_graph(rng):
     return (n, [(v, u) if rng.random() < 0.3 else (u, v) for u, v in pairs])
 
 
+def _gen_even_graph(rng):
+    """mostly graphs with all degrees even (disjoint cycles), sometimes any graph"""
+    if rng.random() < 0.35:
+        return _gen_graph(rng)
+    n = rng.choice([0, 1, 3, 4, 5, 6, 7])
+    vs = list(range(1, n + 1))
+    rng.shuffle(vs)
+    es = []
+    while len(vs) >= 3:
+        k = rng.randint(3, len(vs)) if len(vs) < 6 else rng.choice([3, 4, len(vs)])
+        cyc, vs = vs[:k], vs[k:]
+        es += [(cyc[i], cyc[(i + 1) % k]) for i in range(k)]
+    return (n, es)
+
+
 def _real_graph(g):
     from cnfgen.graphs import Graph
     n, es = g
@@ -522,7 +537,53 @@ def lin_lits(rng, ctx):
     return ls
 
 
+def graph_edge_index(rng, ctx):
+    n, es = ctx.get("G", (0, []))
+    if es and rng.random() < 0.75:
+        u, v = rng.choice(es)
+        return [u, v] if rng.random() < 0.5 else [v, u]
+    return [rng.randint(0, n + 1), rng.randint(0, n + 1)]
+
+
+def graph_edge_pattern(rng, ctx):
+    n, es = ctx.get("G", (0, []))
+    x = rng.random()
+    if x < 0.15:
+        return []
+    if x < 0.25:
+        return [None, None]
+    if x < 0.6:
+        w = rng.randint(0, n + 1)
+        return [w, None] if rng.random() < 0.5 else [None, w]
+    if x < 0.9:
+        return [(None if a is None else a) for a in graph_edge_index(rng, ctx)]
+    return [gen_value(rng, {"k": "opt", "e": {"k": "int"}}) for _ in range(rng.choice([1, 3]))]
+
+
+def graph_edge_lit(rng, ctx):
+    nv = ctx.get("formula", 0)
+    n, es = ctx.get("G", (0, []))
+    v = rng.randint(nv - 1, nv + len(es) + 2)
+    return v if rng.random() < 0.6 else -v
+
+
 HINTS = {
+    ("GraphEdgesVariables", "G"): lambda rng, ctx: _gen_graph(rng),
+    ("GraphEdgesVariables:_unsafe_index_to_lit", "index"): graph_edge_index,
+    ("GraphEdgesVariables:__call__", "index"): graph_edge_pattern,
+    ("GraphEdgesVariables", "pattern"): graph_edge_pattern,
+    ("GraphEdgesVariables", "lit"): graph_edge_lit,
+    ("GraphEdgesVariables", "formula"): lambda rng, ctx: rng.choice([0, 0, 3, 10]),
+    ("PerfectMatchingPrinciple", "G"): lambda rng, ctx: _gen_graph(rng),
+    ("CliqueFormula", "G"): lambda rng, ctx: _gen_graph(rng),
+    ("CliqueFormula", "k"): lambda rng, ctx: rng.choice([0, 1, 2, 3, 4, -1]),
+    ("non_edges", "G"): lambda rng, ctx: _gen_graph(rng),
+    ("GraphColoringFormula", "G"): lambda rng, ctx: _gen_graph(rng),
+    ("GraphColoringFormula", "colors"): lambda rng, ctx: rng.choice([0, 1, 2, 3, 4, -1]),
+    ("EvenColoringFormula", "G"): lambda rng, ctx: _gen_even_graph(rng),
+    ("TseitinFormula", "G"): lambda rng, ctx: _gen_graph(rng),
+    ("TseitinFormula", "charges"): lambda rng, ctx: (None if rng.random() < 0.3 else
+                                                    [rng.random() < 0.5 for _ in range(rng.choice([0, 1, 2, 3, 4, 5, 6, 7]))]),
     ("GraphPigeonholePrinciple", "G"): lambda rng, ctx: _gen_bip(rng),
     ("RelativizedPigeonholePrinciple", "pigeons"): lambda rng, ctx: rng.choice([0, 1, 2, 3, 4, -1]),
     ("RelativizedPigeonholePrinciple", "resting_places"): lambda rng, ctx: rng.choice([0, 1, 2, 3, 4, -1]),
